@@ -70,7 +70,7 @@ class Src:
 
 
 CLASSES = {"A": A, "B": B, "C": C, "D": D, "E": E}
-OPS = ["C_A_kw", "C_A_pos", "C_A_def", "C_B", "C_C", "C_D", "C_E", "SYM_A", "SYM_B", "SYM_D", "INFER_A", "INFER_B", "CLEAR",
+OPS = ["C_A_kw", "C_A_pos", "C_A_def", "C_B", "C_C", "C_D", "C_E", "SYM_A", "SYM_B", "SYM_D", "SYM_EXC", "INFER_A", "INFER_B", "CLEAR",
        "DECL_A", "DECL_B", "DECL_D", "QUERY0", "QUERY1"]
 
 
@@ -118,6 +118,14 @@ class C14(Case):
                     live.append(D(w=nxt()))
                 elif op == "C_E":
                     live.append(E(v=nxt()))
+                elif op == "SYM_EXC":
+                    # a symbolic block left through a (handled) exception, with a symbolic construction inside
+                    try:
+                        with symbolic_mode():
+                            A(v=6)
+                            raise ValueError("user error inside the block")
+                    except ValueError:
+                        pass
                 elif op.startswith("SYM_"):
                     cls = CLASSES[op[-1]]
                     before = sum(len(c.flat_cache) for c in Variable._cache_.values())
